@@ -99,7 +99,17 @@ def _is(a, b):
 
 
 def run(c, col):
-    """c: dict(prog=..., order=index of the permutation of SAMPLES)"""
+    """c: dict(prog=..., order=index of the permutation of SAMPLES[, same_ploidy=True: two samples share a ploidy and differ in everything else])"""
+    global PLOIDY
+    saved = PLOIDY
+    PLOIDY = {"s0": 2, "s1": 4, "s2": 4} if c.get("same_ploidy") else {"s0": 2, "s1": 3, "s2": 4}
+    try:
+        return _run(c, col)
+    finally:
+        PLOIDY = saved
+
+
+def _run(c, col):
     prog_name = c["prog"]
     if E.load is _ENGINE_LOAD:
         E.reset_modules()
